@@ -944,7 +944,7 @@ Example C04_uts46_premises_hold :
 Proof. split; [exact Idna_C10_Walk.toy_notrunc | vm_compute; reflexivity]. Qed.
 
 (* ===== uts46 output walks (task idna3) ===== *)
-From RU Require Proofs.Idna_WalkFun Proofs.Idna_WalkInv Proofs.Idna_WalkApi Proofs.Idna_WalkNoPanic Proofs.Idna_WalkEnc.
+From RU Require Proofs.Idna_WalkFun Proofs.Idna_WalkInv Proofs.Idna_WalkApi Proofs.Idna_WalkNoPanic Proofs.Idna_WalkEnc Proofs.Idna_WalkDepr.
 
 (* idna/src/uts46.rs:549 / :669 - the from_utf8_unchecked sites behind Passthrough.  C04_utf8_uts46_statement IN FULL:
    in every mode (fail-fast or mark-errors, every label-display policy, any sinks), for every byte input (invalid
@@ -1023,6 +1023,56 @@ Proof.
 Qed.
 Check C04_no_panic_uts46_statement_refuted : ~ C04_no_panic_uts46_statement.
 Print Assumptions C04_no_panic_uts46_statement_refuted.
+
+(* finding F-C04-13, decided: the deprecated Idna::to_ascii(domain, out) (deprecated.rs) panics EXACTLY when debug
+   assertions are on, verify_dns_length is configured, the processing wrote its output (the name is not passed
+   through) and the text already in `out` is not ASCII - for every &str domain, every configuration, every `out`
+   (C04_13_exact without its premise on process; no other panic site of the wrapper or of process is reachable) *)
+Theorem C04_13_panic_iff : forall A cfg c domain out,
+  C04_Uts46_Inner.AdapterNP A -> Idna_WalkEnc.AdapterUSV A -> usv_list domain ->
+  (U32_c13.is_panic (Uts46.idna_to_ascii A cfg c domain out) = true <->
+   cfg = true /\ Uts46.cfg_verify_dns_length c = true /\ Uts46.is_ascii_l out = false /\
+   exists s x, Uts46.process A cfg true Uts46.never_unicode
+                 (utf8_encode (Uts46.map_transitional domain (Uts46.transitional_processing c)))
+                 (Uts46.config_deny_list c) (Uts46.config_hyphens c) None None false = (Uts46.PWroteToSink, s, x)).
+Proof. intros A cfg c domain out HN HU Hd. exact (Idna_WalkDepr.idna_to_ascii_panic_iff A cfg HN HU c domain out Hd). Qed.
+Check C04_13_panic_iff : forall A cfg c domain out,
+  C04_Uts46_Inner.AdapterNP A -> Idna_WalkEnc.AdapterUSV A -> usv_list domain ->
+  (U32_c13.is_panic (Uts46.idna_to_ascii A cfg c domain out) = true <->
+   cfg = true /\ Uts46.cfg_verify_dns_length c = true /\ Uts46.is_ascii_l out = false /\
+   exists s x, Uts46.process A cfg true Uts46.never_unicode
+                 (utf8_encode (Uts46.map_transitional domain (Uts46.transitional_processing c)))
+                 (Uts46.config_deny_list c) (Uts46.config_hyphens c) None None false = (Uts46.PWroteToSink, s, x)).
+Print Assumptions C04_13_panic_iff.
+
+(* the other entry points of the idna crate: deprecated Idna::to_unicode, and the lib.rs wrappers domain_to_ascii,
+   domain_to_ascii_strict, domain_to_unicode - no panic (mark-errors ones: outside Known_C11 of the processed text) *)
+Theorem C04_no_panic_idna_wrappers : forall A cfg, C04_Uts46_Inner.AdapterNP A -> Idna_WalkEnc.AdapterUSV A ->
+  (forall c domain out, usv_list domain ->
+     Idna_Known.Known_C11 A cfg (utf8_encode (Uts46.map_transitional domain (Uts46.transitional_processing c)))
+       (Uts46.config_deny_list c) (Uts46.config_hyphens c) = false ->
+     forall site, Uts46.idna_to_unicode A cfg c domain out <> U32_c13.Panic site)
+  /\ (forall domain, usv_list domain ->
+       (forall site, Uts46.domain_to_ascii A cfg domain <> U32_c13.Panic site) /\
+       (forall site, Uts46.domain_to_ascii_strict A cfg domain <> U32_c13.Panic site) /\
+       (Idna_Known.Known_C11 A cfg (utf8_encode domain) Uts46.DENY_EMPTY Uts46.HAllow = false ->
+        forall site, Uts46.domain_to_unicode A cfg domain <> Uts46.UIPanic site)).
+Proof.
+  intros A cfg HN HU. split.
+  - intros c domain out Hd HK. exact (Idna_WalkDepr.idna_to_unicode_no_panic A cfg HN HU c domain out Hd HK).
+  - intros domain Hd. exact (Idna_WalkDepr.lib_wrappers_no_panic A cfg HN HU domain Hd).
+Qed.
+Check C04_no_panic_idna_wrappers : forall A cfg, C04_Uts46_Inner.AdapterNP A -> Idna_WalkEnc.AdapterUSV A ->
+  (forall c domain out, usv_list domain ->
+     Idna_Known.Known_C11 A cfg (utf8_encode (Uts46.map_transitional domain (Uts46.transitional_processing c)))
+       (Uts46.config_deny_list c) (Uts46.config_hyphens c) = false ->
+     forall site, Uts46.idna_to_unicode A cfg c domain out <> U32_c13.Panic site)
+  /\ (forall domain, usv_list domain ->
+       (forall site, Uts46.domain_to_ascii A cfg domain <> U32_c13.Panic site) /\
+       (forall site, Uts46.domain_to_ascii_strict A cfg domain <> U32_c13.Panic site) /\
+       (Idna_Known.Known_C11 A cfg (utf8_encode domain) Uts46.DENY_EMPTY Uts46.HAllow = false ->
+        forall site, Uts46.domain_to_unicode A cfg domain <> Uts46.UIPanic site)).
+Print Assumptions C04_no_panic_idna_wrappers.
 
 (* C04_no_panic_uts46: a concrete adapter meets AdapterNP and AdapterUSV (the toy adapter with non-scalar values and
    U+200F replaced by U+FFFD); a mixed name goes through both entry points, one with an over-long label is rejected *)
